@@ -20,7 +20,7 @@
 //! reduced witness with atoms and non-zero literals abstracted, e.g. `value-changed:(_/Neg(_))`.
 
 use crate::core::{guarded, hash_of, Ctx, Rng};
-use crate::gen::expr_gen::{leaves_c12, random_tree, Depth2, LeafProfile, Tree};
+use crate::gen::expr_gen::{inf, leaves_c12, mem, num, pre, random_tree, var, Depth2, InOp, LeafProfile, PreOp, Tree};
 use crate::model::expr_eval::{abs, assess, c, close, generic_env, random_env, Env, Filter, Verdict, C};
 use crate::props::{PropInfo, DEFAULT};
 use quil_rs::expression::Expression;
@@ -32,19 +32,21 @@ use std::collections::HashMap;
 pub static INFO: PropInfo = PropInfo {
     id: "C12",
     run,
-    rule: "inputs: (a) every expression tree of depth <= 2 over the 10-leaf alphabet {0, 1, -1, 2, 0.5, 2i, pi, %x, %y, m[0]} x 5 functions x 2 prefix x 5 infix operators (1.69 M trees, enumerated completely in both tiers; literals are dyadic so constant folding is exact), (b) random trees up to depth 6 over dyadic literals (real, imaginary, complex, negative), pi, 4 variables, 5 memory cells. Each tree is simplified with Expression::simplify and into_simplified and both original and result are evaluated with Expression::evaluate under 3 assignments (generic values in 0.3..3, one with complex variables; one random assignment for random trees); constant trees are additionally pushed through Gate::to_unitary and CalibrationIdentifier::matches. distinct = distinct tree; non-trivial = the simplifier changed the tree (a rewrite or folding fired).",
+    rule: "inputs: (a) every expression tree of depth <= 2 over the 10-leaf alphabet {0, 1, -1, 2, 0.5, 2i, pi, %x, %y, m[0]} x 5 functions x 2 prefix x 5 infix operators (1.69 M trees, enumerated completely in both tiers; literals are dyadic so constant folding is exact), (b) random trees up to depth 6 over dyadic literals (real, imaginary, complex, negative), pi, 4 variables, 5 memory cells, (c) random +,-,*,/ trees of depth <= 4 whose leaves come from a pool of only 2-4 atoms so that equal subterms (the precondition of the factoring / cancelling / affine-combination rewrites) are frequent, (d) directed rule shapes: (P1 + b1) +/- (P2 + b2), P1 +/- P2, P1 / P2 and (P1 * P2) with P = x, x*a, a*x in every operand orientation and every summand order. Each tree is simplified with Expression::simplify and into_simplified and both original and result are evaluated with Expression::evaluate under 3 assignments (generic values in 0.3..3, one with complex variables; one random assignment for random trees); constant trees are additionally pushed through Gate::to_unitary and CalibrationIdentifier::matches. distinct = distinct tree; non-trivial = the simplifier changed the tree (a rewrite or folding fired).",
     assumptions: &[
         "value preservation is asserted only where the original evaluates to a finite value and, when the two evaluations differ by more than 1e-6*max(1,|a|), the reference evaluator's perturbation filter (rel 1e-11, abs 1e-10, K=16, no intermediate that is non-finite, larger than 1e100 or inside the simplifier's zero band (0,1e-9)) classifies the point as well defined and well conditioned",
         "'never returns pi' is checked at the root of the result only",
     ],
     exhaustive_quick: false,
     exhaustive_thorough: false,
-    exhaustive_note: "sub-space (a) (all trees of depth <= 2 over the 10-leaf alphabet) is enumerated completely; (b) is sampled",
+    exhaustive_note: "sub-space (a) (all trees of depth <= 2 over the 10-leaf alphabet) is enumerated completely; (b), (c), (d) are sampled",
     crash_is_violation: false,
     min_nontrivial: 100_000,
     required_counters: &[
         "workload:depth2-exhaustive",
         "workload:random-depth6",
+        "workload:shared-subterm",
+        "workload:rule-shapes",
         "points:preserved",
         "result:changed",
         "result:unchanged",
@@ -474,6 +476,153 @@ fn run(ctx: &mut Ctx) {
         check_tree(ctx, &tree, &assignments, "workload:random-depth6");
         if ctx.done() {
             return;
+        }
+    }
+    // (c) random trees over a tiny atom pool: equal subterms are frequent, which is the
+    // precondition of the factoring / cancelling / affine rewrites.
+    let mut rng = ctx.rng(13);
+    let n = ctx.share(tier.pick(60_000, 3_000_000));
+    for _ in 0..n {
+        let pool = atom_pool(&mut rng);
+        let depth = 2 + rng.below(3);
+        let tree = pool_tree(&mut rng, depth, &pool);
+        let extra = Assignment::new(random_env(&mut rng));
+        assignments.truncate(2);
+        assignments.push(extra);
+        check_tree(ctx, &tree, &assignments, "workload:shared-subterm");
+        if ctx.done() {
+            return;
+        }
+    }
+
+    // (d) directed rule shapes in every orientation.
+    let mut rng = ctx.rng(14);
+    let n = ctx.share(tier.pick(40_000, 2_000_000));
+    for _ in 0..n {
+        let tree = rule_shape(&mut rng);
+        let extra = Assignment::new(random_env(&mut rng));
+        assignments.truncate(2);
+        assignments.push(extra);
+        check_tree(ctx, &tree, &assignments, "workload:rule-shapes");
+        if ctx.done() {
+            return;
+        }
+    }
+}
+
+fn atom(rng: &mut Rng) -> Tree {
+    match rng.below(9) {
+        0 => var("x"),
+        1 => var("y"),
+        2 => var("z"),
+        3 => mem("m", 0),
+        4 => mem("m", 1),
+        5 => mem("q", 0),
+        6 => mem("theta", 3),
+        7 => Tree::Pi,
+        _ => var("a-b"),
+    }
+}
+
+fn small_const(rng: &mut Rng) -> Tree {
+    const V: [f64; 10] = [2.0, 3.0, 4.0, 5.0, 0.5, 0.25, 1.5, 8.0, 1.0, 0.0];
+    let span = if rng.chance(1, 8) { 10 } else { 8 };
+    let v = V[rng.below(span)];
+    let v = if rng.chance(1, 5) { -v } else { v };
+    if rng.chance(1, 10) {
+        num(0.0, v)
+    } else {
+        num(v, 0.0)
+    }
+}
+
+fn atom_pool(rng: &mut Rng) -> Vec<Tree> {
+    let mut pool = vec![atom(rng)];
+    if rng.chance(2, 3) {
+        pool.push(atom(rng));
+    }
+    pool.push(small_const(rng));
+    if rng.chance(1, 2) {
+        pool.push(small_const(rng));
+    }
+    pool
+}
+
+fn pool_tree(rng: &mut Rng, depth: usize, pool: &[Tree]) -> Tree {
+    if depth == 0 || rng.chance(1, depth as u32 + 3) {
+        return pool[rng.below(pool.len())].clone();
+    }
+    let op = match rng.below(13) {
+        0..=3 => InOp::Plus,
+        4..=7 => InOp::Star,
+        8..=9 => InOp::Minus,
+        10..=11 => InOp::Slash,
+        _ => return pre(PreOp::Minus, pool_tree(rng, depth - 1, pool)),
+    };
+    let l = pool_tree(rng, depth - 1, pool);
+    let r = pool_tree(rng, depth - 1, pool);
+    inf(l, op, r)
+}
+
+/// `x`, `x*a` or `a*x` (or, rarely, `x/a`), with `a` a constant or another atom.
+fn term(rng: &mut Rng, x: &Tree) -> Tree {
+    let a = if rng.chance(3, 4) { small_const(rng) } else { atom(rng) };
+    match rng.below(8) {
+        0 => x.clone(),
+        1..=3 => inf(x.clone(), InOp::Star, a),
+        4..=6 => inf(a, InOp::Star, x.clone()),
+        _ => inf(x.clone(), InOp::Slash, a),
+    }
+}
+
+fn either_order(rng: &mut Rng, l: Tree, op: InOp, r: Tree) -> Tree {
+    if rng.chance(1, 2) {
+        inf(l, op, r)
+    } else {
+        inf(r, op, l)
+    }
+}
+
+fn rule_shape(rng: &mut Rng) -> Tree {
+    let x = if rng.chance(1, 6) {
+        // a compound shared factor
+        let (l, r) = (atom(rng), small_const(rng));
+        either_order(rng, l, InOp::Plus, r)
+    } else {
+        atom(rng)
+    };
+    // the second operand usually mentions the same x, sometimes a different atom
+    let x2 = if rng.chance(5, 6) { x.clone() } else { atom(rng) };
+    let p1 = term(rng, &x);
+    let p2 = term(rng, &x2);
+    let addsub = |rng: &mut Rng| if rng.chance(2, 3) { InOp::Plus } else { InOp::Minus };
+    match rng.below(8) {
+        0..=3 => {
+            // (P1 + b1) +/- (P2 + b2) with each sum in either order
+            let b1 = if rng.chance(3, 4) { small_const(rng) } else { atom(rng) };
+            let b2 = if rng.chance(3, 4) { small_const(rng) } else { atom(rng) };
+            let o1 = addsub(rng);
+            let o2 = addsub(rng);
+            let l = if o1 == InOp::Plus { either_order(rng, p1, o1, b1) } else { inf(p1, o1, b1) };
+            let r = if o2 == InOp::Plus { either_order(rng, p2, o2, b2) } else { inf(p2, o2, b2) };
+            let o = addsub(rng);
+            inf(l, o, r)
+        }
+        4 => {
+            let o = addsub(rng);
+            inf(p1, o, p2)
+        }
+        5 => inf(p1, InOp::Slash, p2),
+        6 => inf(p1, InOp::Star, p2),
+        _ => {
+            // (P1 +/- P2) +/- b, P1 +/- (P2 +/- b)
+            let b = small_const(rng);
+            let (o1, o2) = (addsub(rng), addsub(rng));
+            if rng.chance(1, 2) {
+                inf(inf(p1, o1, p2), o2, b)
+            } else {
+                inf(p1, o1, inf(p2, o2, b))
+            }
         }
     }
 }
